@@ -49,8 +49,8 @@ def design_cfg(consts):
     return 'SPECIFICATION Spec\n' + G.constants(*consts) + ''.join('INVARIANT %s\n' % i for i in INVS) + 'CHECK_DEADLOCK FALSE\n'
 
 
-def run_design(consts, workers, timeout):
-    res = tlc.run_tlc('FtpControl', design_cfg(consts), workers=workers, timeout=timeout, coverage=True, heap='4g')
+def run_design(consts, workers, timeout, coverage=True):
+    res = tlc.run_tlc('FtpControl', design_cfg(consts), workers=workers, timeout=timeout, coverage=coverage, heap='4g')
     cov = {}
     for m in _RE_COV.finditer(res['out']):
         cov[m.group(1)] = cov.get(m.group(1), 0) + int(m.group(3))
@@ -103,24 +103,28 @@ def run(chk):
     ALLM = ['file', 'rest', 'listing']
 
     # ---------------- 1. design checks (run in the background while the scenarios execute)
+    # (name, constants, collect action coverage?)   coverage costs ~1.6x, so only the run that reaches every action has it
     if quick:
-        designs = [('A', (True, 1, ['single'], 0, 'whole', 1, 1, False, ALLM)),
-                   ('B', (True, 0, G.ALL_SHAPES, 1, 'edge', 1, 1, True, ['rest', 'listing'])),
-                   ('C', (True, 0, ['single'], 0, 'whole', 2, 1, False, ['file']))]
+        designs = [('A', (True, 1, ['single'], 0, 'whole', 1, 1, False, ALLM), False),
+                   ('B', (True, 0, G.ALL_SHAPES, 1, 'edge', 1, 1, True, ['rest']), False),
+                   ('C', (True, 0, ['single'], 0, 'whole', 2, 1, True, ['file']), True)]
     else:
-        designs = [('A', (True, 2, ['single'], 0, 'whole', 1, 1, False, ALLM)),
-                   ('B', (True, 0, G.ALL_SHAPES, 1, 'all', 1, 1, True, ALLM)),
-                   ('B2', (True, 0, ['single', 'multi_sp', 'other'], 2, 'edge', 1, 2, True, ['rest', 'listing'])),
-                   ('C', (True, 0, ['single', 'multi'], 1, 'whole', 2, 1, False, ['file', 'listing']))]
+        designs = [('A', (True, 2, ['single'], 0, 'whole', 1, 1, False, ALLM), False),
+                   ('B', (True, 0, G.ALL_SHAPES, 1, 'all', 1, 1, True, ALLM), False),
+                   ('B2', (True, 0, ['single', 'multi_sp', 'other'], 2, 'edge', 1, 2, True, ['rest', 'listing']), False),
+                   ('C', (True, 0, ['single', 'multi'], 1, 'whole', 2, 1, True, ['file', 'listing']), True)]
+    if os.environ.get('C17_NO_DESIGN'):      # development aid for mutant runs: the design checks do not depend on the code
+        designs = []
     pool = ThreadPoolExecutor(max_workers=6)
-    dfut = [(name, c, pool.submit(run_design, c, 2 if quick else 4, 80 if quick else 840)) for name, c in designs]
+    dfut = [(name, c, cov, pool.submit(run_design, c, 2 if quick else 4, 300 if quick else 850, cov))
+            for name, c, cov in designs]
     a0 = (False, 1, ['single'], 0, 'whole', 1, 1, False, ALLM)
-    a0fut = pool.submit(run_design, a0, 1, 300)
+    a0fut = pool.submit(run_design, a0, 1, 300, False)
 
     # ---------------- 2. scenarios
     gen_ex = pool.submit(G.tlc_scenarios, reject, 0, ['single'], 0, 'whole', 1, 1, True, ALLM, None, 0, 600, 2)
     gen_sim = pool.submit(G.tlc_scenarios, reject, 1, G.ALL_SHAPES, 3, 'all', 2, 2, True, ALLM,
-                          500 if quick else 12000, chk.seed + 1, 800)
+                          300 if quick else 12000, chk.seed + 1, 800)
     scen = []    # (origin, scenario)
     for sc in G.url_scenarios(1 if quick else 3):
         scen.append(('url', sc))
@@ -138,7 +142,7 @@ def run(chk):
     tlc.require_ok(exres, 'FtpControlGen exhaustive')
     chk.extra['tlc_enumerated_strategies'] = len(ex)
     if quick:
-        ex = rng.sample(ex, min(len(ex), 700))
+        ex = rng.sample(ex, min(len(ex), 400))
     scen += [('tlc-exhaustive', sc) for sc in ex]
     sim, simres = gen_sim.result()
     chk.extra['tlc_simulated_behaviours'] = len(sim)
@@ -179,7 +183,7 @@ def run(chk):
                + 'CONSTRAINT Record\nPOSTCONDITION Post\nCHECK_DEADLOCK FALSE\n')
     traces = [t for (_, _, t) in items]
     strict_idx = [i for i, (o, _, _) in enumerate(items) if o != 'direct']
-    nchunks = 6
+    nchunks = 3 if quick else 6
     size = max(1, (len(traces) + nchunks - 1) // nchunks)
 
     def mon(part):
@@ -234,12 +238,11 @@ def run(chk):
                         {'scenario': sc, 'trace_prefix': t['ev'][max(0, s['matched'] - 3):s['matched'] + 1]})
 
     # ---------------- design results
-    for name, c, f in dfut:
+    for name, c, cov, f in dfut:
         res = f.result()
         _dbg('design', name, res['distinct'], res['wall_s'])
         chk.design('FtpControl[%s]' % name, res, constants=const_dict(c),
-                   expect_actions=[a for a in ACTIONS
-                                   if not (a == 'NextSessionAny' and c[5] < 2) and not (a in ('ServerDrop', 'ReadEOF') and not c[7])])
+                   expect_actions=ACTIONS if cov else None)
     res0 = a0fut.result()
     chk.extra['model_of_code_as_found'] = {
         'constants': const_dict(a0), 'tlc_verdict': res0['violated'],
@@ -249,7 +252,7 @@ def run(chk):
         raise tlc.TLCError('the model of the unrepaired code must violate OneLine, got %r\n%s'
                            % (res0['violated'], res0['out'][-2000:]))
     pool.shutdown()
-    chk.constants = {'design': [dict(name=n, **const_dict(c)) for n, c, _ in dfut]}
+    chk.constants = {'design': [dict(name=n, **const_dict(c)) for n, c, _, _ in dfut]}
     chk.extra['origins'] = origins
     chk.extra['trace_constants'] = {'RejectCtl': reject}
     chk.rule = ('conversations of the real wpull FTP client with a scripted server: every server strategy TLC enumerates '
@@ -282,3 +285,71 @@ def replay(chk, path):
     v, _ = tlc.validate_batch('FtpControlMon', mon_cfg, [{'ev': ev, 'ref': rp.get('ref') or NOREF}])
     print('monitor verdict:', v[0], CLAUSES.get(v[0]['bad'], 'no clause violated'))
     return 1 if v[0]['bad'] else 0
+
+
+# ---------------------------------------------------------------------- binding self-test
+def selftest(chk):
+    """The strict trace spec accepts what the real client does and rejects every single-field corruption of it;
+    the monitor flags a corrupted command."""
+    import copy
+    reject = rejects_control_chars()
+    sess = {'mode': 'file', 'restart': True, 'user': [117], 'pass': [112], 'path': [97]}
+    sc1 = G.happy_scenario(sess, shapes={0: 'multi_sp', 6: 'multi_dig'}, cuts=[3, 9, 5, 1, 1])
+    sc2 = G.happy_scenario({'mode': 'listing', 'restart': False, 'user': [], 'pass': [], 'path': []}, fallback=True,
+                           final_shape='multi')
+    sc2['sessions'].append({'mode': 'file', 'restart': False, 'user': [98], 'pass': [], 'path': []})
+    sc2['replies'] += [{'b': list(G.shape_bytes(c, t, 'single')), 'xfer': x, 'drop': False}
+                       for c, t, x in ((331, b'ok', False), (230, b'ok', False), (213, b'7', False), (200, b'ok', False),
+                                       (227, G.A1, False), (150, b'ok', True))]
+    sc2['xfers'].append({'eager_final': True, 'moves': [['final', list(b'226 ok\r\n')], ['data', 1], ['close']]})
+    good = [run_scenario(sc1), run_scenario(sc2)]
+
+    def idx(ev, kind, nth=0):
+        return [i for i, e in enumerate(ev) if e['e'] == kind][nth]
+
+    def corrupt(ev, kind, nth, field, fn):
+        ev = copy.deepcopy(ev)
+        e = ev[idx(ev, kind, nth)]
+        e[field] = fn(e[field])
+        return ev
+
+    bad = [
+        ('reply code', corrupt(good[0], 'reply', 2, 'code', lambda c: c + 1)),
+        ('reply text', corrupt(good[0], 'reply', 0, 'text', lambda t: t[:-1] + [t[-1] ^ 1])),
+        ('command byte', corrupt(good[0], 'cmd', 3, 'b', lambda b: b[:5] + [b[5] ^ 1] + b[6:])),
+        ('piece length', corrupt(good[0], 'piece', 1, 'n', lambda n: n + 1)),
+        ('server bytes', corrupt(good[0], 'sent', 1, 'b', lambda b: [b[0] + 1] + b[1:])),
+        ('body length', corrupt(good[0], 'complete', 0, 'body', lambda n: n + 1)),
+        ('outcome', corrupt(good[1], 'end', 1, 'v', lambda v: 'error')),
+        ('data piece', corrupt(good[1], 'dpiece', 0, 'n', lambda n: n + 1)),
+        ('second session mode', corrupt(good[1], 'session', 1, 'mode', lambda m: 'listing')),
+    ]
+    dropped = copy.deepcopy(good[1])
+    del dropped[idx(dropped, 'deof', 0)]
+    bad.append(('data EOF event removed', dropped))
+    str_cfg = ('SPECIFICATION TSpec\n' + G.constants(reject, 0, ['single'], 0, 'all', 99, 999, True, ['file'])
+               + 'CONSTRAINT Record\nPOSTCONDITION Post\nCHECK_DEADLOCK FALSE\n')
+    traces = [{'ev': ev, 'ref': NOREF} for ev in good] + [{'ev': ev, 'ref': NOREF} for _, ev in bad]
+    sv, _ = tlc.validate_batch('FtpControlTrace', str_cfg, traces)
+    ok = True
+    for i, v in enumerate(sv[:len(good)]):
+        print('strict spec on recorded conversation %d: %s' % (i + 1, 'accepted' if v['accepted'] else 'REJECTED at %d' % v['matched']))
+        ok = ok and v['accepted']
+    for (what, _), v in zip(bad, sv[len(good):]):
+        print('strict spec, corrupted %-22s: %s' % (what, 'rejected at event %d' % v['matched'] if not v['accepted'] else 'ACCEPTED'))
+        ok = ok and not v['accepted']
+    # the monitor: a command with an injected line, a completion without EOF, a wrong reference
+    mon_cfg = 'SPECIFICATION MSpec\nCONSTRAINT Record\nPOSTCONDITION Post\nCHECK_DEADLOCK FALSE\n'
+    inj = corrupt(good[0], 'cmd', 3, 'b', lambda b: b[:-2] + [13, 10, 68, 69, 76, 69, 13, 10])
+    wrongref = dict(summary(good[0]))
+    wrongref['replies'] = wrongref['replies'][:-1]
+    mtr = [{'ev': good[0], 'ref': summary(good[0])}, {'ev': inj, 'ref': NOREF}, {'ev': dropped, 'ref': NOREF},
+           {'ev': good[0], 'ref': wrongref}]
+    mv, _ = tlc.validate_batch('FtpControlMon', mon_cfg, mtr)
+    want = [0, 1, 5, 4]
+    for v, w, what in zip(mv, want, ('recorded conversation', 'injected command line', 'completion without data EOF',
+                                     'reference run differs')):
+        print('monitor, %-28s: clause %s' % (what, CLAUSES.get(v['bad'], '-')))
+        ok = ok and v['bad'] == w
+    print('SELFTEST', 'ok' if ok else 'FAILED')
+    return 0 if ok else 2
